@@ -100,6 +100,14 @@ def build_problem(case: dict) -> dict:
         for t in range(T):
             if case["qshape"] in ("q3", "q3p2") and t > 0:
                 Q[b, t] = Q[b, 0]
+            elif case.get("qstyle") == "psd":
+                # the code's exact guard (theorems `*_psd`): Q_t only positive SEMI-definite (singular state block, cross
+                # terms present) with a positive definite input block
+                r = ns // 2
+                M = rs.standard_normal((r, n)) if r > 0 else np.zeros((0, n))
+                Qt = M.T @ M * case["qscale"]
+                Qt[ns:, ns:] += _spd(rs, nc, min(condb, 1e3), case["qscale"])
+                Q[b, t] = (Qt + Qt.T) / 2
             else:
                 Q[b, t] = _spd(rs, n, condb, case["qscale"])
             if case["qshape"] in ("p2", "q3p2") and t > 0:
@@ -396,17 +404,39 @@ def make_ref(prob: dict, b: int, T: int) -> Ref:
 
 # ----------------------------------------------------------------------------- wire
 
-def lqr_line(case: dict, prob: dict, b: int, ubar, dt: int = 1) -> str:
+def arg_flags(case: dict):
+    """how the user spells the arguments: Q once / per step, p once / per step, c1 given or None"""
+    qonce = 1 if case["qshape"] in ("q3", "q3p2") else 0
+    ponce = 1 if case["qshape"] in ("p2", "q3p2") else 0
+    hasc = 0 if (case["c1"] == "none" and case["sys"] != "ltvc") else 1
+    return qonce, ponce, hasc
+
+
+def linear_nums(case: dict, prob: dict, b: int, ubar):
+    """numbers of one batch item in the layout of the driver's `readLinearX` (arguments as the user gives them: the
+    model tiles Q / p given once and takes the `c1 is None` branch itself)"""
     ns, nc, T = case["ns"], case["nc"], case["T"]
+    qonce, ponce, hasc = arg_flags(case)
     L = prob["L"] if prob["tv"] else 0
     nums = list(prob["x0"][b])
     for l in range(max(L, 1)):
-        nums += list(prob["A"][b, l].reshape(-1)) + list(prob["B"][b, l].reshape(-1)) + list(prob["c"][b, l])
-    for t in range(T):
-        nums += list(prob["Q"][b, t].reshape(-1)) + list(prob["p"][b, t])
+        nums += list(prob["A"][b, l].reshape(-1)) + list(prob["B"][b, l].reshape(-1))
+        if hasc:
+            nums += list(prob["c"][b, l])
+    for t in range(1 if qonce else T):
+        nums += list(prob["Q"][b, t].reshape(-1))
+    for t in range(1 if ponce else T):
+        nums += list(prob["p"][b, t])
     if ubar is not None:
         nums += list(np.asarray(ubar)[b].reshape(-1))
-    return f"c14.lqr {ns} {nc} {T} {dt} {L} {0 if ubar is None else 1} " + common.wire_list([float(v) for v in nums])
+    return [float(v) for v in nums], L
+
+
+def lqr_line(case: dict, prob: dict, b: int, ubar, dt: int = 1) -> str:
+    ns, nc, T = case["ns"], case["nc"], case["T"]
+    qonce, ponce, hasc = arg_flags(case)
+    nums, L = linear_nums(case, prob, b, ubar)
+    return f"c14.lqrx {ns} {nc} {T} {dt} {L} {0 if ubar is None else 1} {qonce} {ponce} {hasc} " + common.wire_list(nums)
 
 
 def parse_lqr_reply(rep: str, ns: int, nc: int, T: int, gains: bool = True):
@@ -480,23 +510,14 @@ def nls_line(case: dict, sp: dict, ubar) -> str:
     return f"c14.nls {case['ns']} {case['nc']} {case['T']} {0 if ubar is None else 1} " + common.wire_list(sin_nums(case, sp, ubar))
 
 
-def linear_nums(case: dict, prob: dict, b: int, ubar):
-    ns, nc, T = case["ns"], case["nc"], case["T"]
-    L = prob["L"] if prob["tv"] else 0
-    nums = list(prob["x0"][b])
-    for l in range(max(L, 1)):
-        nums += list(prob["A"][b, l].reshape(-1)) + list(prob["B"][b, l].reshape(-1)) + list(prob["c"][b, l])
-    for t in range(T):
-        nums += list(prob["Q"][b, t].reshape(-1)) + list(prob["p"][b, t])
-    if ubar is not None:
-        nums += list(np.asarray(ubar)[b].reshape(-1))
-    return [float(v) for v in nums], L
-
-
 def mpc_line(case: dict, nums, L: int, has_u: bool, steps: int, patience: int, pc0: int, decreasing: float, tol: float) -> str:
+    """`steps` … are the constructor arguments of the stepper handed to `MPC(...)` (ignored for `stepper=None`, flag
+    `given = 0`); the model applies `MPC.__init__` (`mpcInit`) itself"""
     kind = 1 if case["kind"] == "mpc_nls" else 0
-    return (f"c14.mpc {kind} {case['ns']} {case['nc']} {case['T']} {L} {1 if has_u else 0} {steps} {patience} {pc0} "
-            + common.wire_list([float(decreasing), float(tol)] + nums))
+    given = 0 if case.get("default_stepper") else 1
+    qonce, ponce, hasc = arg_flags(case) if kind == 0 else (0, 0, 1)
+    return (f"c14.mpcx {kind} {case['ns']} {case['nc']} {case['T']} {L} {1 if has_u else 0} {given} {steps} {patience} {pc0} "
+            f"{qonce} {ponce} {hasc} " + common.wire_list([float(decreasing), float(tol)] + nums))
 
 
 def parse_mpc_reply(rep: str, ns: int, nc: int, T: int):
@@ -505,11 +526,11 @@ def parse_mpc_reply(rep: str, ns: int, nc: int, T: int):
         if str(toks).startswith("contract"):
             raise common.InfraError(f"stand-in solver violated its contract: {rep}")
         raise common.InfraError(f"model error reply: {rep[:200]}")
-    niter, pc = int(toks[0]), int(toks[1])
-    v = np.array([float(common.from_wire(t)) for t in toks[2:]])
+    niter, pc, max_steps = int(toks[0]), int(toks[1]), int(toks[2])
+    v = np.array([float(common.from_wire(t)) for t in toks[3:]])
     x = v[:(T + 1) * ns].reshape(T + 1, ns)
     u = v[(T + 1) * ns:(T + 1) * ns + T * nc].reshape(T, nc)
-    return niter, pc, x, u, float(v[-1])
+    return niter, pc, x, u, float(v[-1]), max_steps
 
 
 # ----------------------------------------------------------------------------- hardening helpers
